@@ -46,7 +46,7 @@ impl Sub for Duplicates {
   fn check(&self, c: &HistCase, cl: &mut Classes) -> Verdict {
     let p = c.proto;
     let run = interpret(c);
-    let hist: Vec<String> = c.ops.iter().map(|o| o.short()).collect();
+    let hist: Vec<String> = c.ops.iter().enumerate().map(|(i, o)| if c.twin.get(i).copied().unwrap_or(false) { format!("B2.{}", o.short()) } else { o.short() }).collect();
     cl.tag(format!("{}", p.label()));
     cl.tag(format!("len={}", c.ops.len().min(8)));
     let mut any_dup = false;
@@ -139,13 +139,14 @@ pub fn run(ctx: &Ctx) -> EvidenceMeta {
             proto: Proto::V4L,
             seed: vec![13u8; 32],
             ops: w.iter().enumerate().map(|(i, l)| alphabet_op(*l, i)).collect(),
+            twin: vec![],
           });
           ctx.enumerate(s, cases, true)
         }));
       }
     } else {
       let n = (ctx.n(10_000, 100_000) / s.proto.cost().min(20)).max(300);
-      jobs.push(Box::new(move || ctx.prop(s, (gen::bytes32(), vec(random_op(), 0..=40)).prop_map(move |(seed, ops)| HistCase { proto: s.proto, seed, ops }), n)));
+      jobs.push(Box::new(move || ctx.prop(s, (gen::bytes32(), vec(random_op(), 0..=40), prop_oneof![2 => Just(vec![]), 1 => vec(any::<bool>(), 0..=40)]).prop_map(move |(seed, ops, twin)| HistCase { proto: s.proto, seed, ops, twin }), n)));
     }
   }
   run_jobs(jobs);
